@@ -248,6 +248,19 @@ func runSched(name string) *result {
 			r.hangFail(wd, wd.hangs[0], map[string]string{"schedule": name, "foreign-waiters": "2"})
 		}
 		r.perTaskOracle(wd, complete)
+	case "zero-workers":
+		// WithWorkerCount(0), outside the theorems' hypothesis: the accepted task is popped by the dispatcher and never
+		// received; the shutdown "completes" (no worker to wait for), the counter stays at 1.  Expected, not a finding: the
+		// outcome must be the model's (C16_zero_workers_witness).
+		wd := newWorld(0, false)
+		ok := wd.start(bound)
+		wd.submit(body{})
+		ok = ok && wd.shutdown(bound)
+		complete := ok && wd.waitComplete(bound)
+		waitFor(bound, func() bool { return wd.pool.Queue.Size() == 0 }) // the dispatcher has popped the task
+		zero := ok && wd.waitZero(shortBound)
+		out = wd.outcome(complete, zero)
+		r.perTaskOracle(wd, false)
 	case "start-race":
 		// A Start call (A) is parked in its window while another caller restarts the pool and shuts it down again:
 		// A must never wait for that shutdown while holding the pool lock.
